@@ -74,6 +74,15 @@ fn build_ref(r: &Value, s: f64) -> Mesh {
             }
         }
     }
+    // optional zero-area triangle (three collinear points) sticking out of the corner `hi` along the first in-plane axis
+    let sl = gi_or(r, "sliver", 0);
+    if sl > 0 {
+        let k = vpos.len() as i64;
+        vpos.push(xyz(hi[0], hi[1], h));
+        vpos.push(xyz(hi[0] + 1, hi[1], h));
+        vpos.push(xyz(hi[0] + sl, hi[1], h));
+        faces.push(vec![k, k + 1, k + 2]);
+    }
     build_mesh(&vpos, &faces, s)
 }
 
